@@ -170,8 +170,14 @@ func ruleR11(c *Ctx, dv *dev, modes []string, rule string) {
 			}
 			// the key of the tracker entry
 			if spec.fn == "NoteOn" {
-				if !isEventCode(ts.Args[1]) {
-					c.Bad(rule, key, c.P.Pos(ts.Instr.Pos()), "tracker key is not the event's key code: "+ts.Args[1].String())
+				// the key identifies the pressed key exactly as the mapping does (sub-handler and code), injectively
+				id := identOf(ts.Args[1])
+				if miss, ok := id.covers(dv.mappingKeyNeed("handleKEYEvent", "Midi")); !ok {
+					c.Bad(rule, key, c.P.Pos(ts.Instr.Pos()), fmt.Sprintf("tracker key %s omits %s, which the mapping lookup uses to tell keys apart: two keys that differ only in it share one tracker entry, the second press overwrites the first and one of the notes is never released", ts.Args[1], miss))
+					continue
+				}
+				if !id.injective {
+					c.Bad(rule, key, c.P.Pos(ts.Instr.Pos()), "tracker key is not an injective function of the key's identity ("+id.why+"): "+ts.Args[1].String())
 					continue
 				}
 			} else if ts.Args[1].Op != "param" {
@@ -289,6 +295,12 @@ func ruleR12(c *Ctx, dv *dev, modes []string, rule string) {
 			}
 			n := &Term{Op: "index", Args: []*Term{entry, intConst(0)}}
 			ch := &Term{Op: "index", Args: []*Term{entry, intConst(1)}}
+			if spec.fn == "NoteOff" {
+				if want, ok := dv.pressKeyIdent("NoteOn", spec.tracker); ok && identOf(entry.Args[1]).canon != want.canon {
+					c.Bad(rule, key, pos, fmt.Sprintf("the release looks the key up as %s but the press recorded it as %s: the entry of the press is not found", identOf(entry.Args[1]).canon, want.canon))
+					continue
+				}
+			}
 			if len(np.TrackDels) != 1 || !sameTerm(np.TrackDels[0].Args[1], entry.Args[1]) {
 				c.Bad(rule, key, pos, fmt.Sprintf("expected exactly one delete(%s, <the looked-up key>), found %d", spec.tracker, len(np.TrackDels)))
 				continue
@@ -448,6 +460,10 @@ func ruleR14(c *Ctx, dv *dev, rule string) {
 	}
 	fn := dv.fn["handleKEYEvent"]
 	actionMapping := dv.cfgField["ActionMapping"]
+	pressCanon := ""
+	if id, ok := dv.pressKeyIdent("NoteOn", "noteTracker"); ok {
+		pressCanon = id.canon
+	}
 	groups := map[string][]*Path{}
 	for _, p := range paths {
 		if !valueConsistent(p, 0) {
@@ -476,7 +492,7 @@ func ruleR14(c *Ctx, dv *dev, rule string) {
 			for cnd.Op == "unop" {
 				cnd, taken = cnd.Args[0], !taken
 			}
-			if cnd.Op == "lookupok" && dv.isFieldLoad(cnd.Args[0], "noteTracker") && !taken && isEventCode(cnd.Args[1]) {
+			if cnd.Op == "lookupok" && dv.isFieldLoad(cnd.Args[0], "noteTracker") && !taken && identOf(cnd.Args[1]).canon == pressCanon {
 				miss = true
 			}
 		}
@@ -780,6 +796,7 @@ func ruleR15(c *Ctx, dv *dev, rule string) {
 		bad string
 	}
 	res := map[string]*agg{}
+	relKey := dv.releaseKeyTerm("NoteOff", "noteTracker")
 	note := func(k, bad string) {
 		a := res[k]
 		if a == nil {
@@ -838,7 +855,8 @@ func ruleR15(c *Ctx, dv *dev, rule string) {
 				if !found || !taken {
 					continue
 				}
-				wantKey := (&Term{Op: "extract", Args: []*Term{nx}, Aux: "1"}).String()
+				wantKeyT := &Term{Op: "extract", Args: []*Term{nx}, Aux: "1"}
+				wantKey := wantKeyT.String()
 				called := false
 				for j := i + 1; j < len(p.Effects); j++ {
 					e2 := p.Effects[j]
@@ -847,11 +865,11 @@ func ruleR15(c *Ctx, dv *dev, rule string) {
 					}
 					if e2.Kind == "call" && e2.Callee == dv.fn[spec.off] {
 						if spec.off == "NoteOff" {
-							// argument: pointer to an event whose Event.Code is the range key
-							if strings.Contains(e2.Args[1].String(), "alloc") || true {
-								if codeOfEventArg(p, j, e2.Args[1]) == wantKey {
-									called = true
-								}
+							// argument: pointer to an event from which NoteOff computes the iterated key again
+							jj, arg := j, e2.Args[1]
+							got := substEvent(relKey, func(comp string) *Term { return storedComponent(p, jj, arg, comp) })
+							if relKey != nil && rebuildsKey(got, wantKeyT) {
+								called = true
 							}
 						} else if e2.Args[1].String() == wantKey {
 							called = true
